@@ -51,7 +51,9 @@ def prepare(mpi=False):
         except Stage as e:
             st['translator'] = (False, e.detail)
         ok, out = tie.coq_build()
-        st['coq'] = (ok, '' if ok else '\n'.join(l for l in out.split('\n') if 'Error' in l or 'rror:' in l or l.startswith('File'))[-3000:])
+        ls = out.split('\n')
+        st['coq'] = (ok, '' if ok else '\n'.join(l for i, l in enumerate(ls) if 'Error' in l or 'rror:' in l or l.startswith('File')
+                                                 or any(ls[j].rstrip().endswith('Error:') for j in range(max(0, i - 4), i)))[-3000:])
         st['coq_log'] = out
         try:
             st['model_exe'] = tie.extract_model(); st['extraction'] = (True, '')
@@ -172,7 +174,11 @@ def main():
         broken.append({'stage': 'audit', 'detail': '; '.join(bad_src[:10])})
     proofs = check_proofs(pid)
     if proofs['errors'] or proofs['discharged'] != proofs['obligations'] or proofs['obligations'] == 0:
-        broken.append({'stage': 'proof', 'detail': '; '.join(proofs['errors']) or 'no theorem', 'file': proofs['file']})
+        detail = '; '.join(proofs['errors']) or 'no theorem'
+        if not st['coq'][0] and re.search(r'inconsistent assumptions|Cannot find a physical path|Unable to locate library|Cannot load', detail):
+            # the property file failed only because a file it imports no longer compiles: name that lemma
+            detail = 'a lemma file the theorems import no longer checks: ' + st['coq'][1][:1500] + ' || ' + detail[:600]
+        broken.append({'stage': 'proof', 'detail': detail, 'file': proofs['file']})
     if not st['coq'][0]:
         # a model or lemma file that this property does not need may be the broken one: the property's own
         # file compiled above, so only report files it depends on (coqc would have failed otherwise)
